@@ -449,6 +449,16 @@ class Interp:
             return NotImplemented
         if tname == 'std::hint::must_use' or tname == 'std::convert::identity':
             return args[0]
+        if tname in ('std::convert::Into::into', 'std::convert::From::from', 'std::string::ToString::to_string',
+                     'std::borrow::ToOwned::to_owned') and isinstance(deref_all(args[0]), Obj) and deref_all(args[0]).kind in ('str', 'fmt'):
+            return Obj('fmt')
+        if tname == 'std::option::Option::map':
+            o = deref_all(args[0])
+            if isinstance(o, Enum) and o.variant == 'Some':
+                return SOME(self.apply(args[1], [o.fields['0']], e))
+            if isinstance(o, Enum) and o.variant == 'None':
+                return o
+            return NotImplemented
         if tname in ('std::option::Option::unwrap_or_else',):
             o = deref_all(args[0])
             if isinstance(o, Enum) and o.variant == 'Some':
@@ -607,7 +617,7 @@ class Interp:
                 return Num(-n.r) if e.get('neg') else n
             if lt == 'bool':
                 return B(v == 'true')
-            return Obj('str', v=v)
+            return Ref(ValPlace(Obj('str', v=v)))
         if k == 'Borrow':
             return Ref(self.eval_place(e['e'], fr), mut='Mut' in e.get('bk', ''))
         if k == 'Deref':
